@@ -11,6 +11,7 @@ import (
 	"os"
 	"path/filepath"
 	"regexp"
+	"runtime/pprof"
 	"sort"
 	"strconv"
 	"strings"
@@ -171,6 +172,20 @@ func main() {
 	if len(os.Args) < 2 {
 		usage()
 	}
+	if pf := os.Getenv("GOSMT_PROF"); pf != "" {
+		f, err := os.Create(pf)
+		if err == nil {
+			pprof.StartCPUProfile(f)
+			defer pprof.StopCPUProfile()
+			if secs, _ := strconv.Atoi(os.Getenv("GOSMT_PROF_SECS")); secs > 0 {
+				go func() {
+					time.Sleep(time.Duration(secs) * time.Second)
+					pprof.StopCPUProfile()
+					os.Exit(9)
+				}()
+			}
+		}
+	}
 	switch os.Args[1] {
 	case "check":
 		if len(os.Args) < 4 {
@@ -181,7 +196,9 @@ func main() {
 		if len(os.Args) < 3 {
 			usage()
 		}
-		os.Exit(cmdRun(os.Args[2:]))
+		rc := cmdRun(os.Args[2:])
+		pprof.StopCPUProfile()
+		os.Exit(rc)
 	case "replay":
 		if len(os.Args) < 3 {
 			usage()
@@ -284,6 +301,12 @@ func cmdRun(names []string) int {
 		}
 		hr := eng.Explore(fn, h.Func)
 		printHarness(hr)
+		if os.Getenv("GOSMT_REPLAY") != "" {
+			for k, v := range hr.Violations {
+				keys, concrete := eng.ReplayConcrete(fn, h.Func, v.Model)
+				fmt.Printf("   concrete replay of %s: concrete=%v reproduced=%v got=%v\n", k, concrete, keys[k], keys)
+			}
+		}
 	}
 	return 0
 }
